@@ -21,11 +21,15 @@ PARTIAL BY NATURE.  Kernel signal delivery, `signal.Notify`, SIGWINCH and the pt
   about to forward it to the event loop".  The theorems hold for every configuration and
   every schedule (`Reachable c s`: every label sequence from the moment Run is entered, `init0 c` -
   the handler goroutine is spawned by the first step of the start-up, a signal taken during the
-  start-up is held by it until the loop begins).  `ignoreSignals` is a field of the configuration in the
-  model (WithoutSignals); its toggling by ReleaseTerminal / RestoreTerminal is NOT modelled (the
-  order of those calls is pinned by the bridge facts of `Tea/Props/Bridge/C18.lean`): the theorems
-  about ignored signals are statements about any state whose flag is set (`C18_ignored`, part 1)
-  and about programs configured with it (parts 2, 3).
+  start-up is held by it until the loop begins).  `ignoreSignals` starts with the value of the
+  configuration (WithoutSignals) and is DYNAMIC: the ReleaseTerminal of an Exec sets it
+  (`exRelCancel`), RestoreTerminal clears it (`exResReader`) - both on the event-loop goroutine,
+  in the order pinned by the bridge facts of `Tea/Props/Bridge/C18.lean`.  The theorems about ignored
+  signals are statements about any state whose flag is set (`C18_ignored_partial`, part 1), the exact
+  value of the flag in every reachable state (part 2), programs configured with it (parts 3, 4), the
+  released phases of an Exec (`C18_ignored_while_released`) and the states after an Exec
+  (`C18_signals_obeyed_after_exec`).  ReleaseTerminal / RestoreTerminal called by the PROGRAM from
+  another goroutine (outside an Exec) are not modelled.
 * window size: that the size in the message is the TRUE size, and that a message is sent at
   start-up / on SIGWINCH / on the WindowSize command, are facts about `checkResize` and the
   OS covered by the bridge facts and the differential tests only.  Proved here is what the
@@ -112,7 +116,7 @@ theorem C18_signal_run_returns (c : Config) (s : St) (hr : Reachable c s) (hsig 
   have hel'' := el_exited_runLabels ls h2 (c := if int then .interrupt else .quit) rfl
   obtain ⟨ps, s3, p1, p2, p3, p4⟩ :=
     C04.C04_run_returns_after_startup c s'' hr'' (Or.inr (Or.inl ⟨_, hel''⟩)) hnc
-      (not_starting_of_exited hr'' hel'')
+      (not_starting_of_exited hr'' hel'') (by rw [hel'']; rfl)
   have hr3 := reachable_runLabels ps hr'' p3
   have hel3 := el_exited_runLabels ps p3 hel''
   have hnl : s3.runPc ≠ .loop := by rw [p4]; decide
@@ -126,27 +130,119 @@ theorem C18_signal_run_returns (c : Config) (s : St) (hr : Reachable c s) (hsig 
 
 /-! ### 2. ignored signals do not end the program -/
 
+/- FALSE in the model with Exec, parts (2) and (3): `ignoreSignals` is written by ReleaseTerminal (1)
+and RestoreTerminal (0), whatever the configuration said.
+
+    theorem C18_ignored :
+        (∀ (s : St) (b : Bool), s.ignoreSignals = true → step s (.signal b) = none) ∧
+        (∀ (c : Config) (s : St), Reachable c s → s.ignoreSignals = c.ignoreSignals) ∧
+        (∀ (c : Config) (s : St), c.ignoreSignals = true → Reachable c s →
+          (∀ b, step s (.signal b) = none) ∧ (∀ b, s.sig ≠ .sending b) ∧ step s .elRecvSig = none)
+
+  counterexample to (2): any program, while the command of an Exec runs: the flag is set.
+  counterexample to (2) and (3), a FINDING about the code: a program started with WithoutSignals
+  runs an Exec; `RestoreTerminal` stores 0 in `p.ignoreSignals`; from then on SIGINT ends the
+  program with ErrInterrupted (example in section 7: `cfgIgnoreExec`). -/
+
 /-- **IGNORED.**  (1) In ANY state whose ignore flag is set, a signal taken by the handler
 changes nothing at all: the step does not exist (`handleSignals` drops the signal and keeps
-waiting).  (2) In the model the flag is the one of the configuration, in every reachable
-state.  (3) So in a program configured to ignore signals (WithoutSignals), in every reachable
-state: no signal step exists, the handler never holds a signal to forward, and the loop never
-receives one - no signal ever ends the program. -/
-theorem C18_ignored :
+waiting).  (2) The flag, exactly, in every reachable state of every program: it is set iff the
+terminal is released by an Exec in progress, or a release was never followed by a restore
+(`releaseStuck`), or no RestoreTerminal has run yet and the program was configured to ignore
+signals; in a program that never Execs it is the one of the configuration.  (3) So in a
+program configured to ignore signals (WithoutSignals), in every reachable state in which no
+RestoreTerminal has run yet - every reachable state, if the program never Execs -: no signal step
+exists, the handler never holds a signal to forward, and the loop never receives one. -/
+theorem C18_ignored_partial :
     (∀ (s : St) (b : Bool), s.ignoreSignals = true → step s (.signal b) = none) ∧
-    (∀ (c : Config) (s : St), Reachable c s → s.ignoreSignals = c.ignoreSignals) ∧
-    (∀ (c : Config) (s : St), c.ignoreSignals = true → Reachable c s →
+    (∀ (c : Config) (s : St), Reachable c s →
+      s.ignoreSignals = (s.el.released || s.releaseStuck || (!s.restoredOnce && c.ignoreSignals))) ∧
+    (∀ (c : Config) (s : St), SendKind.exec ∉ c.senders → Reachable c s →
+      s.ignoreSignals = c.ignoreSignals ∧ s.restoredOnce = false) ∧
+    (∀ (c : Config) (s : St), c.ignoreSignals = true → Reachable c s → s.restoredOnce = false →
       (∀ b, step s (.signal b) = none) ∧ (∀ b, s.sig ≠ .sending b) ∧ step s .elRecvSig = none) := by
   have p1 : ∀ (s : St) (b : Bool), s.ignoreSignals = true → step s (.signal b) = none := by
     intro s b h
     simp [step, h]
-  refine ⟨p1, fun c s hr => inv_ignoreSignals hr, ?_⟩
-  intro c s hc hr
-  have hns := inv_ignored_not_sending hc hr
-  refine ⟨fun b => p1 s b (by rw [inv_ignoreSignals hr, hc]), hns, ?_⟩
-  cases hs : s.sig with
-  | sending b => exact absurd hs (hns b)
-  | _ => simp [step, hs]
+  refine ⟨p1, fun c s hr => inv_sig hr, ?_, ?_⟩
+  · intro c s hc hr
+    obtain ⟨_, h2, h3, h4⟩ := inv_noexec hc hr
+    refine ⟨?_, h3⟩
+    rw [inv_sig hr, h3, h4]
+    cases hel : s.el <;> simp_all [ElPc.inExec, ElPc.released]
+  · intro c s hc hr hno
+    have hns := inv_ignored_not_sending hc hr hno
+    refine ⟨fun b => p1 s b (by rw [inv_sig hr, hno, hc]; simp), hns, ?_⟩
+    cases hs : s.sig with
+    | sending b => exact absurd hs (hns b)
+    | _ => simp [step, hs]
+
+/-- the phases of an Exec in which the terminal is released -/
+theorem released_def (e : ElPc) : e.released =
+    match e with
+    | .execRelease .waitRead | .execRelease .renderer | .execRelease .restore | .execCmd
+    | .execRestore .reader => true
+    | _ => false := by
+  cases e <;> first | rfl | (rename_i ph; cases ph <;> rfl)
+
+/-- **IGNORED WHILE THE TERMINAL IS RELEASED.**  In every reachable state of every program whose loop
+is inside an Exec after `exRelCancel` and before `exResReader` - through the rest of ReleaseTerminal,
+the whole run of the command, until RestoreTerminal -: the flag is set and no signal step exists,
+for SIGINT and for SIGTERM: a signal cannot end the program (it is received and dropped).
+Conversely, in a program that was NOT configured to ignore signals the flag is set ONLY then - or
+after a release that was never followed by a restore (`releaseStuck`: set only by the failure of a
+release, `execReleaseFails`, and by a panic of the command, `execCmdPanics`; cleared by the next
+RestoreTerminal). -/
+theorem C18_ignored_while_released (c : Config) (s : St) (hr : Reachable c s) :
+    (s.el.released = true → s.ignoreSignals = true ∧ ∀ int, step s (.signal int) = none) ∧
+    (c.ignoreSignals = false → (s.ignoreSignals = true ↔ (s.el.released = true ∨ s.releaseStuck = true))) ∧
+    (c.ignoreSignals = false → s.el.inExec = false → s.releaseStuck = false → s.ignoreSignals = false) ∧
+    (∀ l s', step s l = some s' → s'.releaseStuck = true →
+      s.releaseStuck = true ∨ l = .execReleaseFails ∨ l = .execCmdPanics) := by
+  have hig := inv_sig hr
+  refine ⟨fun h => ?_, fun hc => ?_, fun hc hx hst => ?_, fun l s' hs h => releaseStuck_origin hs h⟩
+  · have : s.ignoreSignals = true := by rw [hig, h]; simp
+    exact ⟨this, fun int => by simp [step, this]⟩
+  · rw [hig, hc]; simp
+  · have : s.el.released = false := by
+      cases hel : s.el <;> simp_all [ElPc.inExec, ElPc.released]
+    rw [hig, hc, this, hst]; simp
+
+/-- **SIGNALS ARE OBEYED AGAIN AFTER AN EXEC.**  (1) RestoreTerminal's first step clears the flag:
+with a handler waiting, both signal steps are enabled again at once.  (2) In every reachable state
+after a RestoreTerminal (`restoredOnce`) whose loop is not inside a released phase and with no
+release stuck, the flag is clear - whatever the configuration said.  (3) In particular, once the
+loop is back at its `select` with the handler waiting, the conclusions of `C18_sigint` and
+`C18_sigterm` hold from there: SIGINT ends the program with ErrInterrupted, SIGTERM like a quit,
+terminal restored. -/
+theorem C18_signals_obeyed_after_exec (c : Config) (s : St) (hr : Reachable c s) :
+    (∀ s', step s .exResReader = some s' →
+      s'.ignoreSignals = false ∧ (s'.sig = .waiting → ∀ int, (step s' (.signal int)).isSome = true)) ∧
+    (s.restoredOnce = true → s.releaseStuck = false → s.el.released = false → s.ignoreSignals = false) ∧
+    (s.restoredOnce = true → s.releaseStuck = false → s.el = .select → s.sig = .waiting →
+      (∃ s', runLabels s [.signal true, .elRecvSig] = some s' ∧ s'.el = .exited .interrupt ∧
+        s'.sig = .exited ∧ Terminating s' ∧
+        ∀ ls s'', runLabels s' ls = some s'' →
+          s''.el = .exited .interrupt ∧ (s''.runPc ≠ .loop → s''.runErr = .interrupted) ∧
+          (s''.runPc = .returned → 1 ≤ s''.restores)) ∧
+      (∃ s', runLabels s [.signal false, .elRecvSig] = some s' ∧ s'.el = .exited .quit ∧
+        s'.sig = .exited ∧ Terminating s' ∧
+        ∀ ls s'', runLabels s' ls = some s'' →
+          s''.el = .exited .quit ∧
+          (s''.runPc ≠ .loop → s''.runErr = .nil ∨ s''.runErr = .killed) ∧
+          (∀ s3, step s'' .runTail = some s3 →
+            s3.runErr = (if s''.ctxDone = true then .killed else .nil)) ∧
+          (s''.runPc = .returned → 1 ≤ s''.restores))) := by
+  have hig := inv_sig hr
+  have p2 : s.restoredOnce = true → s.releaseStuck = false → s.el.released = false →
+      s.ignoreSignals = false := by
+    intro h1 h2 h3
+    rw [hig, h1, h2, h3]; simp
+  refine ⟨fun s' hs => ?_, p2, fun h1 h2 hel hsig => ?_⟩
+  · obtain ⟨a, _, _, _⟩ := exResReader_signals hs
+    exact ⟨a, fun hw int => by simp [step, hw, a]⟩
+  · have hign := p2 h1 h2 (by rw [hel]; rfl)
+    exact ⟨C18_sigint c s hr hsig hign hel, C18_sigterm c s hr hsig hign hel⟩
 
 /-- ... and ignoring signals does not make the handler goroutine an obstacle to shutdown: it
 still leaves at the cancellation of the context (see also `C18_handler_never_blocks_exit`). -/
@@ -328,6 +424,35 @@ example : (step (init cfgIgnore) (.signal true)).isSome = false ∧
     (runLabels (init cfgIgnore) [.decoded, .elRecvReader, .signal true]).isSome = false ∧
     (runLabels (init cfgIgnore) [.decoded, .elRecvReader, .callbackReturns]).isSome = true := by
   decide
+
+/-- the program of `cfgIgnore` (WithoutSignals) with an Exec message -/
+def cfgIgnoreExec : Config := { cfgIgnore with senders := [.exec] }
+
+/-- THE FINDING: WithoutSignals is forgotten by an Exec.  Before the Exec no signal step exists;
+while the command runs neither; after RestoreTerminal `ignoreSignals` is 0: SIGINT is taken and
+ends the program with ErrInterrupted -/
+example :
+    (step (init cfgIgnoreExec) (.signal true)).isSome = false ∧
+    (runLabels (init cfgIgnoreExec) ([.sendCall 0] ++ (execSchedule 0).take 5)).map
+      (fun s => (s.el, s.ignoreSignals, (step s (.signal true)).isSome)) = some (.execCmd, true, false) ∧
+    (runLabels (init cfgIgnoreExec)
+      ([.sendCall 0] ++ execSchedule 0 ++ [.callbackReturns, .elCmdHandOver, .viewReturns])).map
+      (fun s => (s.el, s.ignoreSignals, (step s (.signal true)).isSome)) = some (.select, false, true) ∧
+    (runLabels (init cfgIgnoreExec)
+      ([.sendCall 0] ++ execSchedule 0 ++ [.callbackReturns, .elCmdHandOver, .viewReturns] ++
+       [.signal true, .elRecvSig, .runTail, .shCancel none, .dispExit, .resizeExit, .shHandlers none,
+        .shReader none, .shRenderer none, .shRestore none, .runReturn])).map obs
+      = some (.returned, .interrupted, 2, true) := by decide
+
+/-- the same Exec in the program that obeys signals: SIGINT and SIGTERM are dropped while the terminal
+is released (every point from `exRelCancel` to the command's return), obeyed before and after -/
+example :
+    ((List.range 10).map (fun k =>
+      (runLabels (init { cfg with senders := [.exec] }) ([.sendCall 0] ++ (execSchedule 0).take k)).map
+        (fun s => ((step s (.signal true)).isSome, (step s (.signal false)).isSome))))
+    = [some (true, true), some (true, true), some (false, false), some (false, false),
+       some (false, false), some (false, false), some (false, false), some (true, true),
+       some (true, true), some (true, true)] := by decide
 
 /-- WithoutSignalHandler: no goroutine, no signal step, and a quit's shutdown does not wait for
 any `sigExit` -/
